@@ -367,17 +367,28 @@ theorem idOffsetsFrom_mono (off : Nat) (ids : List (List Nat)) (k l : Nat) (hkl 
         simp only [idOffsetsFrom, List.getD_cons_succ]
         exact ih _ k' l' (by omega) hl'
 
-theorem ids_shifted (ids : List (List Nat)) (k i : Nat) (hk : k < ids.length)
+theorem ids_shifted (ids : List (List Nat)) (k i : Nat)
     (hi : i < (ids.getD k []).length) :
     ((shiftIds ids).getD k []).getD i 0 = (ids.getD k []).getD i 0 + (idOffsets ids).getD k 0 := by
+  have hk : k < ids.length := by
+    rcases Nat.lt_or_ge k ids.length with h | h
+    · exact h
+    · rw [List.getD_eq_getElem?_getD, List.getElem?_eq_none h] at hi; simp at hi
   rw [shiftIds_getD ids k hk]
   generalize ids.getD k [] = a at hi ⊢
   generalize (idOffsets ids).getD k 0 = o
   simp [List.getD_eq_getElem?_getD, List.getElem?_eq_getElem hi]
 
-theorem ids_disjoint (ids : List (List Nat)) (k l : Nat) (hkl : k < l) (hl : l < ids.length) :
+theorem ids_disjoint (ids : List (List Nat)) (k l : Nat) (hkl : k < l) :
     ∀ a ∈ (shiftIds ids).getD k [], ∀ b ∈ (shiftIds ids).getD l [], a < b := by
   intro a ha b hb
+  have hl : l < ids.length := by
+    rcases Nat.lt_or_ge l ids.length with h | h
+    · exact h
+    · have : (shiftIds ids)[l]? = none := by
+        apply List.getElem?_eq_none
+        simp [shiftIds]; omega
+      rw [List.getD_eq_getElem?_getD, this] at hb; simp at hb
   rw [shiftIds_getD ids k (by omega)] at ha
   rw [shiftIds_getD ids l hl] at hb
   obtain ⟨x, hx, rfl⟩ := List.mem_map.1 ha
